@@ -159,6 +159,25 @@ Fixpoint crlf (s : str) : str :=
   | [] => []
   end.
 
+(* str.splitlines(): line boundaries \n \r \v \f \x1c \x1d \x1e \x85 \u2028 \u2029, "\r\n" counts once,
+   no empty last line *)
+Definition is_linebreak (c : Z) : bool :=
+  mem_Z c [10; 13; 11; 12; 28; 29; 30; 133; 8232; 8233].
+Fixpoint splitlines_aux (s : str) (cur : str) : list str :=
+  match s with
+  | [] => match cur with [] => [] | _ => [rev cur] end
+  | c :: r =>
+      if is_linebreak c then
+        rev cur :: match c, r with
+                   | 13, 10 :: r' => splitlines_aux r' []
+                   | _, _ => splitlines_aux r []
+                   end
+      else splitlines_aux r (c :: cur)
+  end.
+Definition splitlines (s : str) : list str := splitlines_aux s [].
+(* insert-comment without argument: "\n".join("#" + line for line in text.splitlines()), cursor 0 *)
+Definition comment_lines (t : str) : str := join [10] (map (fun l => 35 :: l) (splitlines t)).
+
 Definition e_eff (b : bid) (ks : list kp) (e : estate) : estate * option result :=
   let t := etext e in
   let c := ecur e in
@@ -189,6 +208,8 @@ Definition e_eff (b : bid) (ks : list kp) (e : estate) : estate * option result 
   | 18 => (ins (crlf (data_of ks)) e, None)
   | 19 => (e, None)
   | 20 => (e, None)          (* _newline2: only feeds a key, see e_feeds *)
+  | 21 => (e, Some (RText t))                      (* operate-and-get-next: validate_and_handle() *)
+  | 22 => (set_text_cur (comment_lines t) O e, Some (RText (comment_lines t)))   (* insert-comment *)
   | _ => (mkE t c (equoted e) true (eextra e), None)
   end.
 Definition e_is_cprh (b : bid) : bool := snd b =? 19.
